@@ -69,7 +69,9 @@ P = {
          "links, all shapes), C17_precision_partial / C17_precision_square (Λ = Σ(x)⁻¹ and ln det under the decoupling hypothesis, which holds for "
          "Da = Dy), C17_counterexample (the full statement is false for Dy=1, Da=2), C17_lower_bound_exp / _coshM1 / _relu (returned value ≤ true "
          "expectation, integrability proved; ReLU: both Dx branches, ω* ≥ 0 proved), C17_step_equality (step link: returned value = true expectation, "
-         "Dx = 1 and Dx > 1 branches, via conditioning g on h inside the Gaussian: gauss_condition_sq), C17_tight_at_zero_weights (exp, cosh−1). "
+         "Dx = 1 and Dx > 1 branches, via conditioning g on h inside the Gaussian: gauss_condition_sq), C17_tight_at_zero_weights (exp, cosh−1); the variational parameter is the actual output of the (repaired, live) fixed-point loop: "
+         "omegaWhile_invariant, reluOmegaStar_nonneg, omegaStar_exp_cases / _coshM1_cases (ω* ≠ 0 or the unit's integrand vanishes a.e.) — no "
+         "statement depends on the number of iterations or on convergence. "
          "Hypotheses of the step/ReLU theorems: non-zero input weights and a regular (g,h) covariance — exactly the complement of the known finding "
          "hetero-trunc-degenerate. NOT proved: the asymptotic quadratic decay of the gap (numerical test), anything for Da > Dy beyond the _coded forms.", "§5 C17"),
  "C18": ("PARTIAL. GT.Props.C18: decide-theorems over the class table REGENERATED from /repo's source on every run (to_dict keys are "
@@ -78,7 +80,8 @@ P = {
          "structure — C18_pdf_roundtrip_eq, C18_feat_roundtrip (+ after update_Sigma, replace of kernel parameters), C18_hetero_roundtrip, "
          "C18_trunc_measure_roundtrip / _pdf_roundtrip (+ nested rebuild of the inner measure), C18_trunc_getDensity_idem, C18_nn_roundtrip, and "
          "slice with arange(R) is the identity (C18_*_slice_all). jit/vmap/scan/grad transparency is validated by running pipelines and "
-         "finite-difference gradient checks, not proved; the pytree machinery itself is modelled as a constructor call.", "§5 C18"),
+         "finite-difference gradient checks (incl. the variational bounds of all four heteroscedastic links, objects passed as pytrees, nested objects, "
+         "one-sided truncated integrals, call order jit-before-eager), not proved; the pytree machinery itself is modelled as a constructor call.", "§5 C18"),
  "C19": ("GT.Props.C19: C19_affine_image, C19_factor, C19_law (push-forward of the standard Gaussian under μ+Lξ is the measure with "
          "density N(μ,Σ)), C19_joint_law / C19_sample_law (mutual independence across draws and components), C19_mean_cov. The PRNG is a "
          "trusted primitive; the statistical clause is a test (thorough tier).", "§5 C19"),
